@@ -379,8 +379,9 @@ def r13e(ctx):
         for a in attrs:
             ren[('param', a)] = ('attr', SELF, a)
         fac_r = poly.substitute(fac, ren)
-        ok = fac_r[0] == 'bin' and fac_r[1] == '/' and sc[0][0] == 'bin' and sc[0][1] == '/' and \
-            _pow_equal(sc[0][2], fac_r[3]) and _pow_equal(sc[0][3], fac_r[2])
+        ok = (fac_r[0] == 'bin' and fac_r[1] == '/' and sc[0][0] == 'bin' and sc[0][1] == '/' and
+              _pow_equal(sc[0][2], fac_r[3]) and _pow_equal(sc[0][3], fac_r[2])) or \
+            poly.rat_equal(('bin', '*', sc[0], fac_r), ('const', 1))
         ctx.ob('R13e', f'{qname}.scale vs {ste}.forward', ok,
                'scale is the reciprocal of the factor forward multiplies by' if ok else
                f'reported scale {short(sc[0])} is not the reciprocal of the factor used by '
